@@ -104,13 +104,17 @@ Apply(x, e) ==
     \* the loop went idle: nothing ran; the model must have nothing left to run either
     [] e.c = "idle"           -> IF Quiescent(x) /\ NothingDue(x) THEN {Begin(x)} ELSE {}
 
+\* The start task moving on to the next address after a failed TCP pass changes nothing observable when the
+\* new 60 s timer has the old one's deadline: that resumption is then no row of the trace.
+Pre(x) == IF x.st.pc = "tcp" /\ x.st.wake = "SocketAPIError" /\ x.st.pass < x.naddr /\ x.cs # "closed" /\ ~Due(x, "tcp")
+          THEN {x, StartStep(x)} ELSE {x}
 TStep ==
   /\ l <= Len(T.rows)
   /\ LET e == T.rows[l] IN
        /\ \/ /\ CanAdvance(s, e.t)
-             /\ \E y \in Apply(Advance(s, e.t), e) : Match(y, e) /\ s' = y
+             /\ \E x1 \in Pre(Advance(s, e.t)) : \E y \in Apply(x1, e) : Match(y, e) /\ s' = y
           \* diagnosis of an unexplained row: which projected fields differ (per candidate)
-          \/ /\ ~(CanAdvance(s, e.t) /\ \E y \in Apply(Advance(s, e.t), e) : Match(y, e))
+          \/ /\ ~(CanAdvance(s, e.t) /\ \E x1 \in Pre(Advance(s, e.t)) : \E y \in Apply(x1, e) : Match(y, e))
              /\ PrintT(<<"DIAG", tid, l,
                          IF ~CanAdvance(s, e.t) THEN {{"skipped_timer"}}
                          ELSE IF Apply(Advance(s, e.t), e) = {} THEN {{"not_enabled"}}
